@@ -53,7 +53,8 @@ CLAIMED = {
             "path updates the model, resets the reference point and increments the bounded trial counter, that control actions land on the "
             "run-time field the status function reads and are reported under the public name, and that ABOVE/BELOW/relations mean what they say. "
             "Additionally, bounded to one fixture model: the companion status control the simulator adds for every valve-setting / pump-speed action "
-            "has the condition object, class, priority and control type of its original (interpreted).",
+            "has the condition object, class, priority and control type of its original; every control of the model and every internal control is filed under "
+            "the managers (pre-solve / post-solve / rules / feasibility) its type names and all their actions are observed by the change tracker (interpreted).",
             "Does not decide the invariant over actual trajectories nor equal-priority conflicts; effective status is C02's table; partial steps "
             "for tank-level thresholds are C06's rule R-C06-4.", "DESIGN.md §4 C05"),
     "C06": ("formula extraction of the Euler step of update_tank_heads (sympy, with interp as an uninterpreted function) and of get_volume / "
